@@ -25,6 +25,30 @@ def budget(tier):
     return C.budget(tier, 35.0, 420.0)
 
 
+def _variable_size_attribute(rng, hist):
+    """Sometimes declare a variable-size bytes/str attribute (npz, tfrec);
+    rejected writes aimed at it only omit or misspell it (what other invalid
+    values for such an attribute do is C18's business)."""
+    st = hist["structure"]
+    if st["fmt"] not in ("npz", "tfrec") or rng.random() >= 0.4:
+        return
+    st["attrs"].insert(rng.randrange(0, len(st["attrs"]) + 1),
+                       {"name": "v0", "dtype": rng.choice(["bytes", "str"]),
+                        "shape": []})
+    at = [i for i, a in enumerate(st["attrs"]) if a["name"] == "v0"][0]
+    for ses in hist["sessions"]:
+        ws = list(ses.get("writes", []))
+        for x in ses.get("writers", []):
+            ws.extend(x)
+        for w in ws:
+            if w.get("bad"):
+                if rng.random() < 0.5:
+                    w["bad_attr"] = at
+                if w["bad_attr"] % len(st["attrs"]) == at and w["bad"] not in (
+                        "missing", "misspelt"):
+                    w["bad"] = rng.choice(["missing", "misspelt"])
+
+
 def gen_case(rng, tier, index):
     hist = dsgen.gen_history(rng, n_sessions=rng.randrange(1, 6 if tier == "quick" else 9),
                              formats=C.tfrec_share(tier),
@@ -33,7 +57,9 @@ def gen_case(rng, tier, index):
                              # only kinds every format rejects outright; what
                              # an *accepted* odd write does is C18's business
                              bad_kinds=("shape", "rank", "missing",
-                                        "unsafe_dtype_fb", "extra_tfrec"))
+                                        "unsafe_dtype_fb", "extra_tfrec",
+                                        "extra_npz_tfrec", "misspelt"))
+    _variable_size_attribute(rng, hist)
     return C.base_case(rng, hist)
 
 
